@@ -408,3 +408,15 @@ class TextFS:
             ex.ctx.ghost.setdefault("wfiles", []).append(wf)
             return wf
         return None
+
+
+@lib("os.path", "isfile")
+def os_path_isfile(ex, args, kw):
+    """os.path.isfile on the text file system of a header task: true exactly for the files the task installed or the code under
+    contract wrote (a directory or an absent name is not a file).  Without a text file system the question is about a binary
+    file of unconstrained content: unsupported (the existence predicate belongs to the open() model of that file)."""
+    fs = ex.ctx.ghost.get("fs")
+    if fs is None:
+        raise Unsupported("os.path.isfile outside a text file system")
+    k = fs.key(ex, args[0])
+    return k in fs.files or k in fs.written
